@@ -136,8 +136,11 @@ class InitMethod(MethodDescriptor):
                     skip_invalidation=True,
                 )
 
-            if instance_metadata.post_init:
-                instance_metadata.post_init(self)
+            # Look the hook up on the instance (plain subclasses share this
+            # metadata, and may define or override `__post_init__`).
+            post_init = getattr(self, "__post_init__", None)
+            if post_init:
+                post_init()
 
             self.__delattr__(
                 "__spec_class_initializing__", force=True, skip_invalidation=True
